@@ -77,6 +77,8 @@ def gen_frame(rng, name, arbid, ext, opts):
          "comment": rng.choice([None, "frame comment"]) if opts.get("comments", True) else None, "fd": False, "j1939": False, "signals": sigs, "cycle": 0}
     if nbytes > 8:
         f["fd"] = True
+    if ext and opts.get("j1939_flag") and rng.random() < 0.3:
+        f["j1939"] = True        # an extended frame of a J1939 network
     if opts.get("floats", False) and nbytes >= 8 and rng.random() < 0.12:
         # a float64 needs eight whole bytes of the frame: place it before anything else
         s64 = gen_signal(rng, "dbl", nbytes, used, dict(opts, _float64_first=True))
